@@ -255,7 +255,10 @@ def judge_read(ctx, fx, o, n, sig, path="eager", feats=None):
     elif n > 0:
         E = int(np.prod(x.shape[1:]))
         err = np.sqrt(np.sum(np.abs(x.reshape(n, E).astype(np.complex128) - want.reshape(n, E)) ** 2, axis=0))
-        nrm = np.sqrt(np.sum(np.abs(want.reshape(n, E)) ** 2, axis=0)) + 1e-300
+        # errors of the conversion scale with the norm of its INPUT (the 2n real samples), not of the output
+        seg = fx.stream[2 * o:2 * o + 2 * n].reshape(2 * n, -1).astype(np.float64)
+        nrm_in = np.sqrt(np.sum(seg ** 2, axis=0))
+        nrm = np.broadcast_to(nrm_in.reshape(-1) if nrm_in.size == E else np.full(E, nrm_in.max()), (E,)) + 1e-300
         ctx.stat_max("hilbert_err_over_tol", float(np.max(err / (tol * nrm))))
         if np.any(err > tol * nrm):
             ctx.violation(oname, f"{fx.name}: read({o}, {n}) differs from the analytic conversion of stream samples [{2 * o}:{2 * o + 2 * n}] "
